@@ -151,6 +151,9 @@ def _cfof():
 
     def post(S, inp, out):
         r = inp.rec
+        if "abcd_args" not in r or "from_args" not in r:
+            # the table was not counted or the formula was not evaluated on it: the score cannot be the formula of the table
+            return [("the-score-is-the-formula-evaluated-on-the-counted-table", False)]
         wiring = (r["abcd_args"][0] is inp.obs and r["abcd_args"][1] is inp.fcst and r["abcd_args"][2] is r["I"]
                   and r["abcd_args"][3] is r["FI"] and all(x is y for x, y in zip(r["from_args"], inp.abcd)))
         v = inp.v
